@@ -603,6 +603,11 @@ class WrappedTable:
         left_fk_name = f"{self.tablename.lower()}{self.ormatic.foreign_key_postfix}"
         right_fk_name = f"{target_wrapped_table.tablename.lower()}{self.ormatic.foreign_key_postfix}"
 
+        if left_fk_name == right_fk_name:
+            # a collection of the own class: both columns of the association table reference the same table
+            left_fk_name = f"source_{left_fk_name}"
+            right_fk_name = f"target_{right_fk_name}"
+
         # create association table metadata
         association_table = AssociationTable(
             name=association_table_name,
@@ -623,6 +628,14 @@ class WrappedTable:
             f"Mapped[{module_and_class_name(List)}[{target_wrapped_table.tablename}]]"
         )
         rel_constructor = f"relationship('{target_wrapped_table.tablename}', secondary='{association_table_name}', cascade='save-update, merge')"
+        if target_wrapped_table is self:
+            # the direction cannot be inferred when both foreign keys point to the same table
+            rel_constructor = (
+                f"relationship('{target_wrapped_table.tablename}', secondary='{association_table_name}', "
+                f"primaryjoin='{self.full_primary_key_name} == {association_table_name}.c.{left_fk_name}', "
+                f"secondaryjoin='{self.full_primary_key_name} == {association_table_name}.c.{right_fk_name}', "
+                f"cascade='save-update, merge')"
+            )
         self.relationships.append(
             ColumnConstructor(rel_name, rel_type, rel_constructor)
         )
